@@ -148,3 +148,47 @@ fn c16_argname_location_is_declaration_order() {
     let _ = got_kind;
     kani::cover!(i > j);
 }
+
+struct NGhost {
+    magic: u64,
+    natural_calls: u32,
+}
+static mut NG: NGhost = NGhost { magic: 0xD1FA_57A7_1C00_1601, natural_calls: 0 };
+fn natural_recorder(_a: &str, _b: &str) -> Ordering {
+    unsafe { NG.natural_calls += 1; }
+    Ordering::Less
+}
+
+// @cell props=C16 tier=quick kind=core timeout=900 mem=10 cls=K
+// @desc an integer argument name against a non-numeric one ("d" or "dd" vs a letter, both orders): neither side wins
+// @desc by being a number; the decision is handed to the natural string order (observed through a recording stub)
+#[kani::proof]
+#[kani::unwind(8)]
+#[kani::stub(<f64 as std::str::FromStr>::from_str, f64_from_str_err)]
+#[kani::stub(crate::util::sort::natural_cmp, natural_recorder)]
+fn c16_argname_int_vs_word() {
+    let (ba, _va) = digits::<2>(false);
+    let neg: bool = kani::any();
+    let mut bn = ba;
+    if neg {
+        bn[0] = b'-';
+    }
+    let l: u8 = kani::any();
+    kani::assume(l >= b'a' && l <= b'z');
+    let bw = [l];
+    let names: [&str; 2] =
+        unsafe { [std::str::from_utf8_unchecked(&bn), std::str::from_utf8_unchecked(&bw)] };
+    let swap: bool = kani::any();
+    let got = if swap {
+        SortingAttr::Name.cmp_bench_arg_names(&names[1], &names[0])
+    } else {
+        SortingAttr::Name.cmp_bench_arg_names(&names[0], &names[1])
+    };
+    unsafe {
+        assert_eq!(NG.natural_calls, 1);
+        assert_eq!(NG.magic, 0xD1FA_57A7_1C00_1601);
+    }
+    assert_eq!(got, Ordering::Less);
+    kani::cover!(swap && neg);
+    kani::cover!(!swap && !neg);
+}
